@@ -20,7 +20,7 @@ LANGS = CODE_LANGS + SCHEMA_LANGS
 OUTPUT_KINDS = ("types", "builders", "converters", "api_reference")
 JENNY_DIR = {"go": "golang", "python": "python", "java": "java", "typescript": "typescript", "php": "php",
              "jsonschema": "jsonschema", "openapi": "openapi"}
-SHORT = {"generate_json_marshaller": "marshal", "generate_strict_unmarshaller": "strict", "generate_equal": "equal",
+SHORT = {"alt_paths": "altpaths", "compact": "compact", "generate_json_marshaller": "marshal", "generate_strict_unmarshaller": "strict", "generate_equal": "equal",
          "generate_validate": "validate", "any_as_interface": "anyiface", "skip_runtime": "skiprt",
          "enums_as_union_types": "enumsunion", "types": "types", "builders": "builders", "converters": "converters",
          "api_reference": "apiref"}
@@ -151,12 +151,17 @@ def language_yaml(lang, on, langdir):
     }[lang]
     y = "    - %s:\n" % lang
     body = ""
+    alt = "alt_paths" in on
     if lang == "go":
         body += "        package_root: '%s/%s'\n" % (sc.MODULE, langdir)
     elif lang == "java":
-        body += "        package_path: 'gen'\n"
+        body += "        package_path: '%s'\n" % ("com.example.gen" if alt else "gen")
     elif lang == "php":
-        body += "        namespace_root: 'Gen'\n"
+        body += "        namespace_root: '%s'\n" % ("Acme\\Gen" if alt else "Gen")
+    elif lang == "python" and alt:
+        body += "        path_prefix: 'pfx'\n"
+    elif lang == "typescript" and alt:
+        body += "        path_prefix: 'lib'\n        packages_import_map:\n          cog: '@acme/cog'\n"
     for k in from_spec:
         body += "        %s: %s\n" % (k, yaml_bool(k in on))
     if not body:
